@@ -124,6 +124,24 @@ def check_bezier(name, rot, scale, acc):
     check_box(seg, tb, 1e-9 * size, case, acc, {'kind': kind, 'degenerate': degenerate})
 
 
+LATTICE_T = [0j, 1 + 0j, 1j, 2.5 - 1j, -0.3 + 0.7j, 0.1 + 1j / 3, 4 + 4j, -2 - 0.5j, 1e-6 + 0j]
+
+
+def check_lattice_bezier(idx, acc):
+    """thorough tier: every assignment of 3 / 4 control points over a 9-value lattice (all coincidence
+    patterns, folds, loops, degree-degenerate cases that the named shapes do not list)"""
+    pts = [LATTICE_T[i] for i in idx]
+    cls_ = {3: QuadraticBezier, 4: CubicBezier}[len(pts)]
+    if all(q == pts[0] for q in pts):
+        return
+    seg = cls_(*pts)
+    tb = bezier_true_box(pts)
+    size = max(abs(q) for q in pts) + 1e-300
+    case = {'what': 'lattice_bezier', 'idx': list(idx)}
+    acc.case(case, cls='lattice/%s' % cls_.__name__[0], nontrivial=tb[0][2] or tb[1][2])
+    check_box(seg, tb, 1e-9 * size, case, acc, {'kind': cls_.__name__[0], 'degenerate': 'lattice'})
+
+
 INT_SHAPES = {
     'L_int': (2, 9), 'Q_int': (0, 7, 3), 'Q_int_overshoot': (5, -6, 5), 'C_int': (0, 30, 60, 91), 'C_int_wiggle': (0, 50, -40, 10),
     # the same wiggle with integers that need more than 32 bits (their squares more than 64)
@@ -229,6 +247,9 @@ def shards(tier, seed):
     out += [{'what': 'elevated', 'k': k} for k in range(4)]
     out += [{'what': 'arcs', 'k': k} for k in range(8)]
     out += [{'what': 'libarcs'}, {'what': 'paths'}, {'what': 'int_beziers'}, {'what': 'negative_radius_arcs'}]
+    out += AB.provenance_shards(out, tier, lambda d: d['what'] in ('bezier', 'libarcs'))
+    if tier == 'thorough':
+        out += [{'what': 'lattice', 'part': [i, 32]} for i in range(32)]
     return out
 
 
@@ -275,6 +296,13 @@ def run_shard(desc, tier, seed):
                 continue
             spec = arc_from_center(*g)
             check_arc(spec, {'what': 'arc', 'grid': list(g)}, acc)
+    elif desc['what'] == 'lattice':
+        k = 0
+        for n in (3, 4):
+            for idx in itertools.product(range(len(LATTICE_T)), repeat=n):
+                k += 1
+                if k % desc['part'][1] == desc['part'][0]:
+                    check_lattice_bezier(idx, acc)
     elif desc['what'] == 'int_beziers':
         for n in INT_SHAPES:
             check_int_bezier(n, acc)
@@ -319,7 +347,9 @@ def space(tier, seed):
 def replay(case):
     acc = core.ReplayAcc()
     w = case['what']
-    if w == 'int_bezier':
+    if w == 'lattice_bezier':
+        check_lattice_bezier(tuple(case['idx']), acc)
+    elif w == 'int_bezier':
         check_int_bezier(case['shape'], acc)
     elif w == 'negarc':
         check_arc((0j, complex(*case['radius']), case['rot'], case['flags'][0], case['flags'][1], 40 + 30j), case, acc)
